@@ -8,13 +8,17 @@
    that the C12 and MB streams compare with the implementation): for every input, unification and
    type checking only EXTEND the store - a recorded solution is never changed or removed, cells are
    only appended - and the cell that unify assigns is an unsolved one, because a weak-head normal
-   form that is a hole is an unsolved hole (Proofs/StoreProofs.v, StoreTc.v). Acyclicity and scope of
-   the solutions are validated per instance, not proved; D9 (a hole copied by `open` loses its
-   identity) is a recorded finding. *)
+   form that is a hole is an unsolved hole (Proofs/StoreProofs.v, StoreTc.v). "No hole is solved by a
+   term containing itself" is a theorem too: the store stays ACYCLIC through unification and type
+   checking (Proofs/AcyclicProofs.v, AcyclicTc.v) - the recorded solution consists of unsolved cells
+   only (the lowering shift inlines solved ones), the occurs check is sound for reachability through
+   solved cells, so an assignment can only add edges into cells without outgoing edges. Scope of the
+   solutions is validated per instance; D9 (a hole copied by `open` loses its identity) is a
+   recorded finding. *)
 From Coq Require Import List ZArith Bool Relations.
 Import ListNotations.
 Require Import Gram.Model.Term Gram.Model.DeBruijn Gram.Model.Eval Gram.Spec.Typing Gram.Oracle.Infer Gram.Proofs.InferSound Gram.Proofs.ConvProofs.
-Require Import Gram.Model.ModelB Gram.Proofs.StoreProofs Gram.Proofs.StoreTc.
+Require Import Gram.Model.ModelB Gram.Proofs.StoreProofs Gram.Proofs.StoreTc Gram.Proofs.AcyclicProofs Gram.Proofs.AcyclicTc.
 
 Theorem C12_validator_sound : forall fuel G a b, convb fuel G a b = Some true -> conv G a b.
 Proof. exact convb_sound. Qed.
@@ -56,4 +60,30 @@ Print Assumptions C12_type_check_only_extends_the_store.
 
 (* non-vacuity: unifying the unsolved hole 0 with `int` solves exactly that cell *)
 Example C12_example : unifyB 10 [None; Some TBool] [] (THole 0 0) TInt = Some (true, [Some TInt; Some TBool]).
+Proof. vm_compute. reflexivity. Qed.
+
+Theorem C12_unify_keeps_the_store_acyclic : forall f s D a b ok s',
+  unifyB f s D a b = Some (ok, s') -> acyclic s -> acyclic s'.
+Proof. exact unifyB_acyclic. Qed.
+Check C12_unify_keeps_the_store_acyclic : forall f s D a b ok s',
+  unifyB f s D a b = Some (ok, s') -> acyclic s -> acyclic s'.
+Print Assumptions C12_unify_keeps_the_store_acyclic.
+
+Theorem C12_type_check_never_records_a_cyclic_solution : forall f t nholes r,
+  tcB f (repeat None nholes) [] [] t = Some r -> acyclic (b_st r).
+Proof. exact checkB_store_acyclic. Qed.
+Check C12_type_check_never_records_a_cyclic_solution : forall f t nholes r,
+  tcB f (repeat None nholes) [] [] t = Some r -> acyclic (b_st r).
+Print Assumptions C12_type_check_never_records_a_cyclic_solution.
+
+Theorem C12_occurs_check_sound : forall f s id t, occursB f s id t = Some false -> ~ leaf s t id.
+Proof. exact occursB_sound. Qed.
+Check C12_occurs_check_sound : forall f s id t, occursB f s id t = Some false -> ~ leaf s t id.
+Print Assumptions C12_occurs_check_sound.
+
+(* non-vacuity: the occurs check through a cell solved earlier - ?1 := ?0, then ?0 against `- ?1` - is refused,
+   and the store it leaves is acyclic *)
+Example C12_acyclic_example :
+  unifyB 12 [None; None] [] (TBin OSum (THole 1 0) (THole 0 0)) (TBin OSum (THole 0 0) (TNeg (THole 1 0)))
+  = Some (false, [None; Some (THole 0 0)]).
 Proof. vm_compute. reflexivity. Qed.
